@@ -413,8 +413,10 @@ func (st *rstate) call(f *rfunc, args []rval, cur *renv) rval {
 		return st.decline()
 	}
 	parent := f.env
-	if cur.fnText() == f.text {
-		parent = cur // a function body run from a call of the same function sees the caller's frame
+	if cur.curFn() == f {
+		// a function body run from a call of the very same function value (recursion) sees the caller's frame;
+		// another closure made from the same text is another function
+		parent = cur
 	}
 	env := &renv{vars: map[string]*rval{}, outer: parent, fn: f}
 	params := f.params
@@ -447,6 +449,14 @@ func (st *rstate) call(f *rfunc, args []rval, cur *renv) rval {
 		return st.decline()
 	}
 	return res
+}
+
+// curFn is the function value whose body is running in this frame (nil at top level).
+func (e *renv) curFn() *rfunc {
+	if e != nil && e.fn != nil {
+		return e.fn
+	}
+	return nil
 }
 
 func (e *renv) fnText() *sx {
@@ -645,6 +655,13 @@ func (st *rstate) eval(e *sx, env *renv) rval {
 			}
 			return v.arr[0]
 		}
+		if v.k == rStr { // strings are sequences of runes
+			rs := []rune(v.s)
+			if len(rs) == 0 {
+				return rval{}
+			}
+			return rval{k: rStr, s: string(rs[:1])}
+		}
 		return st.decline()
 	case "rest":
 		v := st.eval(a[0], env)
@@ -656,6 +673,13 @@ func (st *rstate) eval(e *sx, env *renv) rval {
 				return rval{}
 			}
 			return rval{k: rArr, arr: append([]rval{}, v.arr[1:]...)}
+		}
+		if v.k == rStr {
+			rs := []rune(v.s)
+			if len(rs) <= 1 {
+				return rval{}
+			}
+			return rval{k: rStr, s: string(rs[1:])}
 		}
 		return st.decline()
 	case "idx":
